@@ -1,4 +1,4 @@
-(** C09 — the head set is exactly the frontier. *)
+(** C09 — the head set is exactly the frontier *)
 From Aranya Require Import base.Tactics model.Dag model.Txn proofs.TxnGraph proofs.TxnInv proofs.TxnProps proofs.TxnExamples.
 From Coq Require Import Sorted.
 
@@ -9,14 +9,13 @@ Check heads_are_frontier :
   forall (facts : Type) (fempty : facts) (eval : cmd -> facts -> outcome facts) (has_policy : cmd -> bool)
          (merge_id : N -> N -> N) (facts_effs : facts -> list eff)
          (braid : list (wcmd facts) -> list N -> bres facts) (libc : bool) (gid : N),
-  forall ops : list op,
-  rclash facts (run facts fempty eval has_policy merge_id facts_effs braid libc gid r0 ops) = false ->
-  match rstore (run facts fempty eval has_policy merge_id facts_effs braid libc gid r0 ops) with
+  forall ops, (rclash facts) ((run facts fempty eval has_policy merge_id facts_effs braid libc gid) r0 ops) = false ->
+  match rstore ((run facts fempty eval has_policy merge_id facts_effs braid libc gid) r0 ops) with
   | None => True
   | Some s =>
     StronglySorted N.lt (sheads s) /\ NoDup (sheads s)
-    /\ (forall x, In x (sheads s) <-> In x (frontier (committed_graph facts s)))
+    /\ (forall x, In x (sheads s) <-> In x (frontier ((committed_graph facts) s)))
     /\ (forall h, In h (sheads s) -> anc (sg (sW s)) gid h)
-    /\ wf_graph (committed_graph facts s)
+    /\ wf_graph ((committed_graph facts) s)
   end.
 Print Assumptions heads_are_frontier.
